@@ -836,15 +836,22 @@ where
                         self.wrap_children(elems, slot_flag, slots)
                     }
                 }
-                expr @ Expr::Fn(..) | expr @ Expr::Arrow(..) => Expr::Object(ObjectLit {
-                    span: DUMMY_SP,
-                    props: vec![PropOrSpread::Prop(Box::new(Prop::KeyValue(KeyValueProp {
+                expr @ Expr::Fn(..) | expr @ Expr::Arrow(..) => {
+                    let mut props = vec![PropOrSpread::Prop(Box::new(Prop::KeyValue(KeyValueProp {
                         key: PropName::Ident(quote_ident!("default")),
                         value: Box::new(expr.clone()),
-                    })))],
-                }),
+                    })))];
+                    // `v-slots` entries go beside the `default` slot
+                    extend_with_slots(&mut props, slots);
+                    Expr::Object(ObjectLit {
+                        span: DUMMY_SP,
+                        props,
+                    })
+                }
                 Expr::Object(ObjectLit { props, .. }) => {
                     let mut props = props.clone();
+                    // `v-slots` entries go beside the slots written as the child
+                    extend_with_slots(&mut props, slots);
                     if self.options.optimize {
                         props.push(PropOrSpread::Prop(Box::new(Prop::KeyValue(KeyValueProp {
                             key: PropName::Ident(quote_ident!("_")),
@@ -905,17 +912,7 @@ where
             })),
         })))];
 
-        if let Some(expr) = slots {
-            match *expr {
-                Expr::Object(ObjectLit {
-                    props: slot_props, ..
-                }) => props.extend_from_slice(&slot_props),
-                _ => props.push(PropOrSpread::Spread(SpreadElement {
-                    dot3_token: DUMMY_SP,
-                    expr,
-                })),
-            }
-        }
+        extend_with_slots(&mut props, slots);
 
         if self.options.optimize {
             props.push(PropOrSpread::Prop(Box::new(Prop::KeyValue(KeyValueProp {
@@ -1653,5 +1650,22 @@ pub mod verif_hooks {
     pub fn known_tag(name: &str) -> bool {
         css_dataset::tags::STANDARD_HTML_TAGS.contains(name)
             || css_dataset::tags::SVG_TAGS.contains(name)
+    }
+}
+
+
+/// Adds the entries of a `v-slots` value to a slots object: the entries of an object literal as they are,
+/// anything else as a spread.
+fn extend_with_slots(props: &mut Vec<PropOrSpread>, slots: Option<Box<Expr>>) {
+    if let Some(expr) = slots {
+        match *expr {
+            Expr::Object(ObjectLit {
+                props: slot_props, ..
+            }) => props.extend_from_slice(&slot_props),
+            _ => props.push(PropOrSpread::Spread(SpreadElement {
+                dot3_token: DUMMY_SP,
+                expr,
+            })),
+        }
     }
 }
